@@ -931,4 +931,123 @@ const pageMask = pageSize - 1"""),
 	}
 
 	var oldRel *ID"""),
+
+ # ---------------- round-8 rules ----------------
+ dict(prop="C02", name="growth copy of the world index cut to the used count", kind="M", file=WI, expect="C02.R22",
+      old="""		w.entities = make([]entityIndex, required, capacity)
+		copy(w.entities, old)
+	} else if required > len {""",
+      new="""		w.entities = make([]entityIndex, required, capacity)
+		copy(w.entities, old[:w.entityPool.Len()+1])
+	} else if required > len {"""),
+ dict(prop="C02", name="growth copy with the source sliced to its own length (benign)", kind="B", file=WI,
+      old="""		w.entities = make([]entityIndex, required, capacity)
+		copy(w.entities, old)
+	} else if required > len {""",
+      new="""		w.entities = make([]entityIndex, required, capacity)
+		copy(w.entities, old[:len(old)])
+	} else if required > len {"""),
+ dict(prop="C03", name="getArchetypes loop bound minus the free slots", kind="M", file=WI, expect="C03.R22",
+      old="""		ln2 := int32(nodeArches.Len())
+		var j int32
+		for j = 0; j < ln2; j++ {""",
+      new="""		ln2 := int32(nodeArches.Len()) - int32(len(nd.freeIndices))
+		var j int32
+		for j = 0; j < ln2; j++ {"""),
+ dict(prop="C03", name="relation filters skipped for relation-less tables in addArchetype", kind="M", file=CA, expect="C03.R21",
+      old="""			e := &c.filters[i]
+			if !e.Filter.Matches(&arch.Mask) {
+				continue
+			}
+			e.Archetypes.Add(arch)
+		}
+		return""",
+      new="""			e := &c.filters[i]
+			if _, ok := e.Filter.(*RelationFilter); ok {
+				continue
+			}
+			if !e.Filter.Matches(&arch.Mask) {
+				continue
+			}
+			e.Archetypes.Add(arch)
+		}
+		return"""),
+ dict(prop="C07", name="per-entry nil test of Indices dropped in removeArchetype", kind="M", file=CA, expect="C07.R21",
+      old="""		if e.Indices == nil && e.Filter.Matches(&arch.Mask) {
+			c.mapArchetypes(e)
+		}
+""",
+      new="""		if len(c.filters) > 64 && e.Filter.Matches(&arch.Mask) {
+			c.mapArchetypes(e)
+		}
+"""),
+ dict(prop="C09", name="Compile guard keyed on the world field", kind="M", file=GC, expect="C09.R18",
+      old="""	if q.compiled && (q.world == w || q.locked) {
+		return
+	}""",
+      new="""	if q.world == w || (q.locked && q.world != nil) {
+		return
+	}"""),
+ dict(prop="C18", name="compiled flag set before the relation checks", kind="M", file=GC, expect="C18.R26",
+      old="""	q.world = w
+
+	q.Ids = toIds(w, include)""",
+      new="""	q.world = w
+	q.compiled = true
+
+	q.Ids = toIds(w, include)"""),
+ dict(prop="C19", name="relation id resolved once in Compile", kind="M", file=GC, expect="C19.R10",
+      old="""		targetID := ecs.TypeID(w, targetType)
+
+		q.Relation = targetID
+		q.HasRelation = true
+""",
+      new="""		if !q.HasRelation {
+			q.Relation = ecs.TypeID(w, targetType)
+			q.HasRelation = true
+		}
+		targetID := q.Relation
+"""),
+ dict(prop="C18", name="Compile guard with operands swapped (benign)", kind="B", file=GC,
+      old="""	if q.compiled && (q.world == w || q.locked) {""",
+      new="""	if q.compiled && (q.locked || w == q.world) {"""),
+ dict(prop="C18", name="Exchange.Adds rebuilds the builder only without relation", kind="M", file="generic/exchange.go", expect="C18.R25",
+      old="""	b := ecs.NewBuilder(m.world, m.add...)
+	if m.hasRelation {
+		b = b.WithRelation(m.relationID)
+	}
+	m.builder = *b
+	return m""",
+      new="""	if !m.hasRelation {
+		m.builder = *ecs.NewBuilder(m.world, m.add...)
+	}
+	return m"""),
+ dict(prop="C11", name="NewEntityWith through the public NewEntity", kind="M", file=W, expect="C11.R2",
+      old="""	arch := w.archetypes.Get(0)
+	arch = w.findOrCreateArchetype(arch, ids, nil, Entity{})
+
+	entity := w.createEntity(arch)
+
+	for _, c := range comps {
+		w.copyTo(entity, c.ID, c.Comp)
+	}
+
+	if w.listener != nil {
+		var newRel *ID
+		if arch.HasRelationComponent {
+			newRel = &arch.RelationComponent
+		}
+		bits := subscription(true, false, len(comps) > 0, false, newRel != nil, newRel != nil)
+		trigger := w.listener.Subscriptions() & bits
+		if trigger != 0 && subscribes(trigger, &arch.Mask, nil, w.listener.Components(), nil, newRel) {
+			w.listener.Notify(w, EntityEvent{Entity: entity, Added: arch.Mask, AddedIDs: ids, NewRelation: newRel, EventTypes: bits})
+		}
+	}
+	return entity""",
+      new="""	entity := w.NewEntity(ids...)
+
+	for _, c := range comps {
+		w.copyTo(entity, c.ID, c.Comp)
+	}
+	return entity"""),
 ]
